@@ -330,13 +330,19 @@ def _special_number_repr(
 ) -> str | None:
     """Return the representation of the special numeric values infinity, negative
     infinity, and NaN."""
-    if math.isinf(o):
+    # `math.isinf` converts its argument to a float, which turns finite decimals beyond
+    # the range of a float into infinities
+    if isinstance(o, Decimal):
+        is_nan, is_inf = o.is_nan(), o.is_infinite()
+    else:
+        is_nan, is_inf = math.isnan(o), math.isinf(o)
+    if is_nan:
+        return "NaN" if human_readable else "##NaN"
+    if is_inf:
         if o > 0:
             return "Infinity" if human_readable else "##Inf"
         else:
             return "-Infinity" if human_readable else "##-Inf"
-    if math.isnan(o):
-        return "NaN" if human_readable else "##NaN"
     return None
 
 
